@@ -5,6 +5,7 @@ import (
 	"fmt"
 	"html"
 	"net/url"
+	"regexp"
 	"strings"
 	"testing"
 
@@ -275,10 +276,10 @@ func markerInAttrOrSpecial(out string) bool {
 // ---------- sub-property "code": directed code-context shapes ----------
 
 type CodeCase struct {
-	Shape   string    `json:"shape"`   // template with the hole @@
-	Wrap    string    `json:"wrap"`    // how the action is produced: plain, if, range, with, helper, print
-	Payload evid.BStr `json:"payload"` // untrusted string (marker at both ends is added)
-	Typed   string    `json:"typed"`   // "" = untrusted string; else a safe type carrying trusted contents (control case)
+	Shape   string    `json:"shape"`        // template with the hole @@
+	Wrap    string    `json:"wrap"`         // how the action is produced: plain, if, range, with, helper, print
+	Payload evid.BStr `json:"payload"`      // untrusted string (marker at both ends is added)
+	Typed   string    `json:"typed"`        // "" = untrusted string; else a safe type carrying trusted contents (control case)
 	JS      bool      `json:"js,omitempty"` // the untrusted string is javascript:alert(1) + payload (no marker): no URL attribute of the output may have the javascript scheme
 }
 
@@ -306,6 +307,9 @@ var codeShapes = []string{
 	`<link rel="stylesheet {{if .C}}{{end}}icon" href="@@">`, `<link rel="style{{if .C}}{{end}}sheet" href="@@">`, `<link rel="{{if .C}}stylesheet{{end}} icon" href="@@">`, `<link rel="icon {{if .C}}stylesheet{{else}}x{{end}}" href="@@">`, `<link rel="icon{{/* c */}} stylesheet" href="@@">`,
 	`{{if .C}}<script{{else}}<br{{end}}>@@</script>`, `{{if .C}}<object{{else}}<br{{end}}>@@`, `{{if .C}}<style{{else}}<hr{{end}}>@@</style>`, `{{if .F}}<br{{else}}<script{{end}}>@@</script>`, `{{if .C}}<script{{else}}<div{{end}}>@@`,
 	`<s{{if .C}}cript{{end}}>@@</script>`, `<scr{{/* c */}}ipt>@@</script>`, `<scr{{if .C}}{{end}}ipt>@@</script>`, `<a hr{{if .C}}ef{{end}}="@@">`, `<div on{{if .C}}click{{end}}="@@">`,
+	// K-rawnest: the end tag of an element that browsers tokenize as raw text (iframe, noscript with scripting, xmp,
+	// noembed, noframes) written inside an attribute value or a comment; the engine does not model these elements
+	`<noscript><p title="</noscript><script>@@</script>">`, `<iframe><p title="</iframe><script>@@</script>">`, `<xmp><p title='</xmp><style>@@</style>'>`, `<noembed><!-- </noembed><script>@@</script> -->`, `<noframes><a href="</noframes><script>@@//">`,
 	// a special element's end tag written inside its own start tag (a browser reads attribute names there)
 	`<script </script>@@</script>`, `<script type="module"</script>@@</script>`, `<style </style>@@</style>`, `<script x=1 </script >@@</script>`, `<SCRIPT </SCRIPT>@@</SCRIPT>`,
 	// branches that open different elements one of which is a special element, followed by markup
@@ -321,6 +325,10 @@ var codeShapes = []string{
 	`<a {{if .C}}title {{end}}href="@@">`, `<a title={{if .F}}x{{end}} alt="@@">`, `<b{{if .F}} {{end}}title="@@">`,
 	`<textarea>@@</textarea>`, `<title>@@</title>`, `<p>@@</p>`, `<noscript>@@</noscript>`, `<iframe>@@</iframe>`, `<xmp>@@</xmp>`, `<plaintext>@@`,
 }
+
+// rawnestShape: a raw-text element the engine does not model whose end tag is written inside a quoted attribute
+// value or a comment.
+var rawnestShape = regexp.MustCompile(`^<(iframe|noscript|xmp|noembed|noframes)>(<[a-z]+ [a-z]+=["']|<!-- )</(iframe|noscript|xmp|noembed|noframes)>`)
 
 func genCode(t *rapid.T) CodeCase {
 	c := CodeCase{Shape: rapid.SampledFrom(codeShapes).Draw(t, "shape"), Wrap: rapid.SampledFrom([]string{"plain", "plain", "if", "range", "with", "helper", "print", "var", "else", "rec", "recbal", "reserved"}).Draw(t, "wrap")}
@@ -459,6 +467,9 @@ func checkCode(c CodeCase) evid.Outcome {
 		}
 		if strings.Contains(c.Shape, `{{.R}}`) {
 			v.Finding = "F-reldyn-regressed"
+		}
+		if rawnestShape.MatchString(c.Shape) {
+			v.Finding = "K-rawnest"
 		}
 		return v
 	}
